@@ -23,12 +23,12 @@ package otto
 //@ builtin[C14] Error.prototype - obj class=Error proto=Object.prototype
 //@ builtin[C14] Math - obj class=Math proto=Object.prototype
 //@ builtin[C14] JSON - obj class=JSON proto=Object.prototype
-//@ builtin[C14] EvalError.prototype - obj proto=Error.prototype
-//@ builtin[C14] RangeError.prototype - obj proto=Error.prototype
-//@ builtin[C14] ReferenceError.prototype - obj proto=Error.prototype
-//@ builtin[C14] SyntaxError.prototype - obj proto=Error.prototype
-//@ builtin[C14] TypeError.prototype - obj proto=Error.prototype
-//@ builtin[C14] URIError.prototype - obj proto=Error.prototype
+//@ builtin[C14] EvalError.prototype - obj class=Error proto=Error.prototype
+//@ builtin[C14] RangeError.prototype - obj class=Error proto=Error.prototype
+//@ builtin[C14] ReferenceError.prototype - obj class=Error proto=Error.prototype
+//@ builtin[C14] SyntaxError.prototype - obj class=Error proto=Error.prototype
+//@ builtin[C14] TypeError.prototype - obj class=Error proto=Error.prototype
+//@ builtin[C14] URIError.prototype - obj class=Error proto=Error.prototype
 //@ builtin[C14] Object - obj class=Function proto=Function.prototype
 //@ builtin[C14] Function - obj class=Function proto=Function.prototype
 //@ builtin[C14] Array - obj class=Function proto=Function.prototype
